@@ -597,7 +597,7 @@ class NoPanic:
             if inner is not None and B.le(v, ("len", inner), 0, b):
                 return self.rec(fn, b, "set_position", coarse(P, v), "proved", "new position <= length of the underlying buffer (keeps position <= len)")
             return self.rec(fn, b, "set_position", coarse(P, v), "open", "cursor position may be set beyond the buffer (invalidates position <= len)")
-        if name == "chunks" and len(args) == 2:
+        if name in ("chunks", "chunks_exact") and len(args) == 2:
             n = intval(self.W, ev, args[1])
             lo = B.lower(args[1], b)
             if (n is not None and n > 0) or lo >= 1:
